@@ -68,7 +68,9 @@ def make_classes():
 
 
 LOAD_ARGS = {'x1': 'x: 1\n', 'xabc': 'x: abc\n', 'tagA': '!A {x: 1}\n',
-             'y2': 'y: 2\n', 'r': 'r\n', 'bad': '[\n'}
+             'y2': 'y: 2\n', 'r': 'r\n', 'bad': '[\n',
+             'coll': 'x: [[1], [2, [3]], {a: [4], b: {c: [5]}}]\ny: [[6]]\n',
+             'cyc': 'x: 1\ntop: &a [1, {inner: [*a]}]\n'}
 
 
 def dump_arg(name, cl):
@@ -425,6 +427,10 @@ def run(tier, replay=None):
                 called.add(h['f'])
                 if h['arg'] in ('bad', 'xabc'):
                     sc += 1
+                if h['arg'] == 'cyc' and any(
+                        g['op'] == 'call' and g['arg'] == 'coll'
+                        for g in c['hist'][:c['hist'].index(h)]):
+                    sc += 6
         return sc
     par_cases = [c for c in cases if any(h['par'] for h in c['hist'])]
     seq_cases = [c for c in cases if not any(h['par'] for h in c['hist'])]
